@@ -491,7 +491,7 @@ Fixpoint run_loop (fuel : nat) (p : parser) (scripts : list (list N)) (served : 
         let r0 := mkR s0 (len (role_input_streams (r_role rq)) <=? 1) false in
         let env := canon_env (r_env rq) in
         let w1 := fold_left (fun w p => w_ev (w_ev w (fst p)) (snd p)) env
-                    (w_ev (w_ev w' [100]) [r_role rq; r_flags rq; len env; stream_code (stream s0);
+                    (w_ev (w_ev w' [100; epoch w']) [r_role rq; r_flags rq; len env; stream_code (stream s0);
                                             if rwriteable r0 then 1 else 0]) in
         let script := nth served scripts (last scripts []) in
         match run_handler (length script + 2) script r0 w1 with
